@@ -1064,14 +1064,16 @@ func (ex *Exec) refine(t, f *astate, fr *aframe, cond ssa.Value) {
 					shape = false
 				}
 			}
-			if shape && n < 63 {
+			if shape && n <= 63 {
 				zero, nonzero := t, f
 				if op == token.NEQ {
 					zero, nonzero = f, t
 				}
 				whole := SourceVec(src, w)
-				zero.narrow(whole, false, 0, int64(1)<<uint(n)-1)
-				nonzero.narrow(whole, false, int64(1)<<uint(n), math.MaxInt64)
+				zero.narrow(whole, false, 0, int64(uint64(1)<<uint(n)-1))
+				if n < 63 {
+					nonzero.narrow(whole, false, int64(1)<<uint(n), math.MaxInt64)
+				}
 				return
 			}
 		}
